@@ -292,6 +292,16 @@ class FactClient(ir.Client):
             if ("cmp", not pol, cs) in facts:
                 return None      # the same flag was assumed the other way earlier on this path (nothing wrote it since)
             facts.add(("cmp", pol, cs))
+        # result variable compared with a constant: t = f(..); if (t == SIZE_MAX) ..
+        if k == "Bin" and c["op"] in ("==", "!="):
+            for a, b in ((strip(c["x"]), strip(c["y"])), (strip(c["y"]), strip(c["x"]))):
+                if a.get("k") == "Bin" and a["op"] == "=":
+                    a = strip(a["x"])
+                if a.get("k") == "Ref" and b.get("k") == "Int":
+                    for vid, (cs, t) in pend:
+                        if vid == a["id"] and t == "size_t":
+                            eq = pol if c["op"] == "==" else not pol
+                            facts.add(("cmp", eq, "%s==%s" % (cs, self.canon(b))))
         # provenance of err_t / bool variables
         env2 = ir.refine(c, pol, env)
         for vid, (cs, t) in pend:
@@ -306,6 +316,8 @@ class FactClient(ir.Client):
                 continue
             if t == "err_t":
                 facts.add(("ok", cs) if v == ("c", 0) else ("bad", cs))
+            elif t == "size_t" and v[0] == "c":
+                facts.add(("cmp", True, "%s==%s" % (cs, v[1])))
             elif t == "bool_t":
                 facts.add(("T", cs) if v != ("c", 0) else ("F", cs))
         facts = frozenset(facts)
